@@ -112,7 +112,7 @@ func (h *histRun) checkAlive(where string) bool {
 		return false
 	}
 	// the precondition is evaluated against the replica as it is now: max only grows, the floor only rises
-	classifyExit(h.res, where, msg, h.startedWithDB, h.startedWithDB, h.sidecarAtStart, h.p.max(), snapshotFloor(rep), h.s.Cfg.String())
+	classifyExit(h.res, where, msg, h.startedWithDB, h.startedWithDB, h.sidecarAtStart, h.p.max(), snapshotFloor(rep), h.pathOK, h.s.Cfg.String())
 	return false
 }
 
@@ -135,7 +135,7 @@ func (h *histRun) stop() bool {
 	if strings.Contains(msg, "cannot resume follow mode") {
 		// The resume validation refused before the cancellation took effect: this
 		// error does not depend on the stop request.
-		classifyExit(h.res, "stop right after restart", msg, h.startedWithDB, h.startedWithDB, h.sidecarAtStart, h.p.max(), snapshotFloor(h.p.e.RepPath), h.s.Cfg.String())
+		classifyExit(h.res, "stop right after restart", msg, h.startedWithDB, h.startedWithDB, h.sidecarAtStart, h.p.max(), snapshotFloor(h.p.e.RepPath), h.pathOK, h.s.Cfg.String())
 		h.f = nil
 		return false
 	}
@@ -295,6 +295,31 @@ func runHist(run *vf.Run, raw json.RawMessage, dir string) *vf.Result {
 		}
 		h.start()
 		if h.catchUp("demo: after restart", true) {
+			h.stop()
+		}
+		return finish()
+	}
+
+	if s.Demo == "first-snapshot-later" {
+		// the follower goes down before the primary has taken any level-9 snapshot; the first
+		// snapshot is taken above the follower's sidecar, every level-0 file is still there
+		h.ops = []string{"demo-first-snapshot-later"}
+		h.start()
+		if !h.catchUp("demo: first catch-up", false) || !h.stop() {
+			return finish()
+		}
+		if err := p.write(3); err != nil {
+			return fail(err)
+		}
+		p.snapshot()
+		if err := p.write(1); err != nil {
+			return fail(err)
+		}
+		h.start()
+		if h.pathOK && h.sidecarAtStart < snapshotFloor(p.e.RepPath) {
+			res.Count("restart_below_oldest_snapshot_with_incremental_path", 1)
+		}
+		if h.catchUp("demo: after restart below the first snapshot", true) {
 			h.stop()
 		}
 		return finish()
